@@ -29,6 +29,29 @@ COMPONENTS = [
     ('event', 'spec/event', ['Event.tla', 'TimedWaitProps.tla', 'EventHB.tla', 'MCEventHB.tla', 'MC_hb.cfg'],
      ['latch.h', 'detail/completion_event_impl.h'], 'OrdersEvent', 'MCEventHB.tla',
      [('MC_hb.cfg', 'CompletionEvent notify/wait/waitFor and Latch count_down/arrive_and_wait/wait/try_wait publishing data', 'quick')]),
+    ('asyncreq', 'spec/asyncreq',
+     ['AsyncReq.tla', 'AsyncReqHB.tla', 'MCAsyncReqHB.tla', 'MC_hb1.cfg', 'MC_hb2.cfg', 'MC_hb3.cfg', 'MC_hb_pub1.cfg', 'MC_hb_pub2.cfg'],
+     ['async_request.h'], 'OrdersAsyncReq', 'MCAsyncReqHB.tla',
+     [('MC_hb1.cfg', 'AsyncRequest 1 consumer + 1 producer, up to 4 rounds (slot reused), polling on both sides', 'quick'),
+      ('MC_hb2.cfg', 'AsyncRequest 2 consumers x 2 producers, all operations, request/emplace/get of a round by different threads', 'quick'),
+      ('MC_hb3.cfg', 'AsyncRequest 2 consumers + 1 producer, std::optional with trivially movable T (move only reads obj_)', 'thorough'),
+      ('MC_hb_pub1.cfg', 'AsyncRequest publishing request data: 1 consumer, 1 producer reading after updateRequested()/tryEmplaceUpdate()', 'quick'),
+      ('MC_hb_pub2.cfg', 'AsyncRequest publishing request data: 1 consumer, 2 producers', 'thorough')]),
+    ('drwlock', 'spec/drwlock', ['DRWLock.tla', 'DRWLockHB.tla', 'MCDRWLockHB.tla', 'MC_hb1.cfg', 'MC_hb2.cfg', 'MC_hb3.cfg'],
+     ['detail/rw_lock_impl.h', 'detail/completion_event_impl.h'], 'OrdersDRWLock', 'MCDRWLockHB.tla',
+     [('MC_hb1.cfg', 'DistributedRWLock N=2: lock/try_lock(roll-back, drain)/unlock vs lock_shared/try_lock_shared on both slots, data cell under the lock', 'quick'),
+      ('MC_hb2.cfg', 'DistributedRWLock N=1/2: writer-writer-reader chains (spin loop, 2nd ShAdd/SetWb), threads that are reader and writer, try variants', 'quick'),
+      ('MC_hb3.cfg', 'DistributedRWLock N=2: 3 threads x 2 segments, all six operations, every thread reader and writer', 'thorough')]),
+    ('rwlock', 'spec/rwlock', ['RWLock.tla', 'RWLockHB.tla', 'MCRWLockHB.tla', 'MC_hb1.cfg', 'MC_hb2.cfg'],
+     ['rw_lock.h', 'detail/rw_lock_impl.h', 'detail/completion_event_impl.h'], 'OrdersRWLock', 'MCRWLockHB.tla',
+     [('MC_hb1.cfg', 'RWLock 3 threads: lock/try_lock/unlock, lock_shared/try_lock_shared/unlock_shared, lock_downgrade; retrying reader, writer after writer, try_lock over draining readers + roll-back', 'thorough'),
+      ('MC_hb2.cfg', 'RWLock lock_upgrade/lock_downgrade with a single writer thread (documented contract) vs blocking and try readers', 'quick')]),
+    ('taskset', 'spec/taskset',
+     ['TaskSet.tla', 'MCTaskSet.tla', 'TaskSetHB.tla', 'MCTaskSetHB.tla', 'MC_hb1.cfg', 'MC_hb2.cfg', 'MC_hb3.cfg'],
+     ['task_set.cpp', 'detail/task_set_impl.h', 'task_set.h'], 'OrdersTaskSet', 'MCTaskSetHB.tla',
+     [('MC_hb1.cfg', 'TaskSet: inline/queued/ring/bulk/force-queued paths, throwers, tryWait+wait, set reused after a delivered exception, destructor', 'quick'),
+      ('MC_hb2.cfg', 'ConcurrentTaskSet: racing throwers, fork-join recursion, two scheduling threads, waiter != creator, nested set with cascading cancel (child list + mutex)', 'quick'),
+      ('MC_hb3.cfg', 'kHeavy (schedulePlaced/bulkPlaced), 2-thread pools, cancel from a second thread, 4 tasks from two threads', 'thorough')]),
 ]
 # components whose code uses std::atomic_thread_fence: composed with spec/lib/MemOrderF.tla.  `tentative` cfgs additionally
 # count the discarded tentative reads of losing stealers: a violation there is replayed on the real deque and reported
